@@ -77,9 +77,11 @@ class Op4Binary:
             return struct.pack(self.e + "%dd" % len(flat), *flat), len(flat)            # 1 (8-byte) word each
         return struct.pack(self.e + "%dd" % len(flat), *flat), 2 * len(flat)            # double on a 32-bit file: 2 words each
 
-    def matrix(self, name, M, mtype, form, layout, strings_of):
+    def matrix(self, name, M, mtype, form, layout, strings_of, nrow=None):
         """M: list of columns (each a list of values, length nrow); layout 'dense' | 'bigmat' | 'nonbigmat'; strings_of(col) -> [(start, values)]"""
-        ncol, nrow = len(M), len(M[0]) if M else 0
+        ncol = len(M)
+        if nrow is None:
+            nrow = len(M[0]) if M else 0
         nm = name.upper().ljust(16 if self.bit64 else 8).encode()
         self._rec(struct.pack(self.e + "4" + self.i, ncol, -nrow if layout == "bigmat" else nrow, form, mtype) + nm)
         for c, col in enumerate(M):
